@@ -218,11 +218,12 @@ static void File_Close(var self) {
   }
   
   int err = fclose(f->file);
+  f->file = NULL;
+  
   if (err != 0) {
     throw(IOError, "Failed to close file: %i", $I(err));
   }
   
-  f->file = NULL;
 }
 
 static void File_Seek(var self, int64_t pos, int origin) {
